@@ -11,7 +11,7 @@ import ast
 
 from ..model import AnalysisError, unparse
 from ..report import RuleResult
-from ._c12_flow import Flow, argument, call_name, certain_strings, parents
+from ._c12_flow import Flow, argument, call_name, certain_strings, instance_facts, isinstance_of, parents, test_facts, top_types
 
 IN_PLACE = {"update", "append", "extend", "insert", "remove", "pop", "clear", "setdefault", "sort", "reverse"}
 COPY_CALLS = ("deepcopy", "copy.deepcopy", "copy.copy", "dict")
@@ -123,7 +123,142 @@ def copied_on_harvest(ctx):
                 src = list(o.args) + ([o.func.value] if isinstance(o.func, ast.Attribute) and o.func.attr == "copy" else [])
                 if any(_entry_read(fl, s, ent_calls, key) for a in src for s in fl.origins_at(a)):
                     out.add(key)
-    return out
+    return out | set(_generic_harvest_copies(ctx)[0])
+
+
+MAPPING_TYPES = {"dict", "Dict", "Mapping", "MutableMapping", "OrderedDict", "defaultdict"}
+
+
+def _entry_iteration(fl: Flow, target, it, is_h):
+    """(key variable, value variable | None) when `for target in it` walks the entries of a harvested dict:
+    `for k, v in d.items()`, `for k in d` / `d.keys()` (also through list(...) / tuple(...))."""
+    it = _unwrap_order_keeping(it)
+    if isinstance(it, ast.Call) and isinstance(it.func, ast.Attribute) and not it.args and is_h(it.func.value):
+        if it.func.attr == "items" and isinstance(target, (ast.Tuple, ast.List)) and len(target.elts) == 2 and all(isinstance(t, ast.Name) for t in target.elts):
+            return target.elts[0].id, target.elts[1].id
+        if it.func.attr == "keys" and isinstance(target, ast.Name):
+            return target.id, None
+    elif isinstance(target, ast.Name) and is_h(it):
+        return target.id, None
+    return None
+
+
+def _generic_harvest_copies(ctx):
+    """(keys, types): copy_to_parent re-binds the harvested entries of those keys / EVERY harvested entry that is an instance of one
+    of those types ("*": whatever its type) to a copy of itself before constructing the new entity.  Recognised: a loop over the
+    entries with the store under isinstance / key tests (nested ifs, conjunctions, `if not ..: continue`), a dict comprehension over
+    the entries (re-bound, or handed to .update) with a conditional expression / filter; the copy may be made in an expanded helper."""
+    if "c12.generic" in ctx.cache:
+        return ctx.cache["c12.generic"]
+    _fn, v, fl, ent_calls, _type_calls, _ = _harvests(ctx)
+    par = parents(v.node)
+
+    def is_h(e):
+        return any(fl.holds_entries_of(e, c) for c in ent_calls)
+
+    def entry_test(kv):
+        key, val = kv
+
+        def is_entry(e):
+            for o in fl.origins_at(e):
+                if isinstance(o, ast.Name) and val is not None and o.id == val:
+                    return True
+                if isinstance(o, ast.Subscript) and isinstance(o.slice, ast.Name) and o.slice.id == key and is_h(o.value):
+                    return True
+                if isinstance(o, ast.Call) and isinstance(o.func, ast.Attribute) and o.func.attr in ("get", "__getitem__") and o.args \
+                        and isinstance(o.args[0], ast.Name) and o.args[0].id == key and is_h(o.func.value):
+                    return True
+            return False
+
+        return is_entry
+
+    def copies_entry(e, is_entry, through_ifexp=True):
+        """None: not a copy of the entry; else the set of types for which the entry is copied ('*': always)"""
+        if isinstance(e, ast.IfExp) and through_ifexp:
+            t = isinstance_of(e.test, is_entry)
+            if t is None:
+                return None
+            names, positive = t
+            copied, kept = (e.body, e.orelse) if positive else (e.orelse, e.body)
+            if copies_entry(copied, is_entry, False) is not None and is_entry(kept) and positive:
+                return names
+            return None
+        os_ = fl.origins_at(e)
+        if os_ and all(_is_copy_call(o) and any(is_entry(a) for a in list(o.args) + ([o.func.value] if isinstance(o.func, ast.Attribute) and o.func.attr == "copy" else []))
+                       for o in os_):
+            return {"*"}
+        return None
+
+    def settle(types, facts):
+        """(types copied, keys it is restricted to | None) under the facts"""
+        keys = None
+        for kind, vals in facts:
+            if kind == "type":
+                types = set(vals) if "*" in types else (types & set(vals))
+            else:
+                keys = set(vals) if keys is None else (keys & set(vals))
+        return types, keys
+
+    out_types: set = set()
+    out_keys: set = set()
+
+    def record(types, keys):
+        if not types:
+            return
+        if keys is None:
+            out_types.update(types)
+        else:
+            out_keys.update(k for k in keys if isinstance(k, str))
+
+    for n in ast.walk(v.node):
+        if isinstance(n, (ast.For, ast.AsyncFor)):
+            kv = _entry_iteration(fl, n.target, n.iter, is_h)
+            if kv is None:
+                continue
+            is_entry = entry_test(kv)
+            is_key = lambda e, kv=kv: isinstance(e, ast.Name) and e.id == kv[0]  # noqa: E731
+            for st in ast.walk(n):
+                if not (isinstance(st, (ast.Assign, ast.AnnAssign)) and st.value is not None):
+                    continue
+                tgs = st.targets if isinstance(st, ast.Assign) else [st.target]
+                if not any(isinstance(t, ast.Subscript) and isinstance(t.slice, ast.Name) and t.slice.id == kv[0] and is_h(t.value) for t in tgs):
+                    continue
+                types = copies_entry(st.value, is_entry)
+                if types is None:
+                    continue
+                # the conditions under which the store is reached, inside the loop
+                facts = instance_facts(par, st, n, is_entry, is_key=is_key)
+                if facts is not None:
+                    record(*settle(types, facts))
+        elif isinstance(n, ast.DictComp) and len(n.generators) == 1:
+            g = n.generators[0]
+            kv = _entry_iteration(fl, g.target, g.iter, is_h)
+            if kv is None or not (isinstance(n.key, ast.Name) and n.key.id == kv[0]):
+                continue
+            up = par.get(n)
+            rebinding = isinstance(up, (ast.Assign, ast.AnnAssign)) and up.value is n
+            updating = isinstance(up, ast.Call) and isinstance(up.func, ast.Attribute) and up.func.attr == "update" and n in up.args and is_h(up.func.value)
+            if not (rebinding or updating) or (rebinding and g.ifs):
+                continue  # (a filter on a re-binding comprehension drops entries: not this clause's business)
+            is_entry = entry_test(kv)
+            is_key = lambda e, kv=kv: isinstance(e, ast.Name) and e.id == kv[0]  # noqa: E731
+            types = copies_entry(n.value, is_entry)
+            if types is None:
+                continue
+            facts = []
+            for cond in g.ifs:
+                sub = test_facts(cond, True, is_entry, is_key)
+                facts = None if (facts is None or sub is None) else facts + sub
+            if facts is not None:
+                record(*settle(types, facts))
+    ctx.cache["c12.generic"] = (out_keys, out_types)
+    return ctx.cache["c12.generic"]
+
+
+def copied_types_on_harvest(ctx) -> set:
+    """Type names T such that copy_to_parent re-binds EVERY harvested entry that is an instance of T to a copy of itself
+    before constructing the new entity ("*": every entry whatever its type)."""
+    return set(_generic_harvest_copies(ctx)[1])
 
 
 def _omit_sites(ctx, fn):
@@ -216,19 +351,90 @@ def _mutations(ctx, fn):
     return ctx.cache[key]
 
 
+def _reset_by_constructor(ctx, K, f):
+    """The class (or a base) whose __init__ assigns self.<f> unconditionally AFTER its super().__init__(..) call: the keyword
+    arguments are applied at the bottom of that chain (Entity.__init__), so whatever value was harvested for <f> is overwritten
+    again before the constructor returns — the copy does not keep the source's object."""
+    for c in K.mro:
+        if isinstance(c, str):
+            continue
+        fn = c.methods.get("__init__")
+        if fn is None:
+            continue
+        key = ("c12.reset", id(fn.node))
+        if key not in ctx.cache:
+            me = fn.self_name or "self"
+            body = _flow(ctx, fn)[0].node.body
+            up = next((i for i, st in enumerate(body) if any(
+                isinstance(x, ast.Call) and isinstance(x.func, ast.Attribute) and x.func.attr == "__init__"
+                and (_is_super(x.func.value) or (isinstance(x.func.value, ast.Name) and x.args and isinstance(x.args[0], ast.Name) and x.args[0].id == me))
+                for x in ast.walk(st))), None)
+            fields = set()
+            if up is not None:
+                for st in body[up + 1:]:
+                    if isinstance(st, (ast.Assign, ast.AnnAssign)) and st.value is not None:
+                        for t in (st.targets if isinstance(st, ast.Assign) else [st.target]):
+                            if isinstance(t, ast.Attribute) and isinstance(t.value, ast.Name) and t.value.id == me:
+                                fields.add(t.attr)
+            ctx.cache[key] = fields
+        if f in ctx.cache[key]:
+            return c
+    return None
+
+
+def _dict_typed(ctx, K, f, g, s, arg):
+    """Why the harvested field holds a dict (None when nothing says so): the annotation of the field / of the setter's
+    parameter / of the getter, the setter's isinstance validation, a dict default."""
+    key = ("c12.dict", id(s.node), f)
+    if key in ctx.cache:
+        return ctx.cache[key]
+    why = None
+    for c in K.mro:
+        if isinstance(c, str) or why:
+            continue
+        fn = c.methods.get("__init__")
+        if fn is None:
+            continue
+        me = fn.self_name or "self"
+        for a in ast.walk(_flow(ctx, fn)[0].node):
+            if isinstance(a, ast.AnnAssign) and _self_attr(a.target, me, (f,)) and top_types(a.annotation) & MAPPING_TYPES:
+                why = f"annotated {unparse(a.annotation)} in {fn.qualname}"
+            elif isinstance(a, (ast.Assign, ast.AnnAssign)) and a.value is not None \
+                    and any(_self_attr(t, me, (f,)) for t in (a.targets if isinstance(a, ast.Assign) else [a.target])) \
+                    and (isinstance(a.value, (ast.Dict, ast.DictComp)) or (isinstance(a.value, ast.Call) and call_name(a.value) in MAPPING_TYPES)):
+                why = why or f"initialised with a dict in {fn.qualname}"
+    if why is None and arg is not None:
+        prm = next((x for x in s.node.args.posonlyargs + s.node.args.args if x.arg == arg), None)
+        if prm is not None and prm.annotation is not None and top_types(prm.annotation) & MAPPING_TYPES:
+            why = f"setter parameter annotated {unparse(prm.annotation)}"
+    if why is None and arg is not None:
+        sv, sfl = _flow(ctx, s)
+        for c in ast.walk(sv.node):
+            t = isinstance_of(c, lambda e: sfl.is_param(e, arg)) if isinstance(c, (ast.Call, ast.UnaryOp)) else None
+            if t and t[0] & MAPPING_TYPES:
+                why = "setter validates isinstance(.., dict)"
+    if why is None and g.node.returns is not None and top_types(g.node.returns) & MAPPING_TYPES:
+        why = f"getter annotated -> {unparse(g.node.returns)}"
+    ctx.cache[key] = why
+    return why
+
+
 def rule_alias(ctx) -> RuleResult:
     res = RuleResult(
         "C12.ALIAS",
         "C12",
         "for every attribute harvested by copy_to_parent (instance fields minus the omit lists of the copy chain): not all of "
         "(getter returns the stored object itself) and (setter stores its argument by reference) and (a method of the class "
-        "mutates the field in place) — otherwise copy and source share state observable through the API",
+        "mutates the field in place) — otherwise copy and source share state observable through the API; a field holding a DICT "
+        "(annotation / setter validation / default) needs no mutator of the class: the getter hands the stored dict to the caller. "
+        "Either way the field is fine when copy_to_parent copies it on harvest (by key, or every dict-valued entry)",
         floor=300,
     )
     p = ctx.p
     ent = p.cls("Entity")
     omit0 = base_omit(ctx)
     copied = copied_on_harvest(ctx)
+    copied_types = copied_types_on_harvest(ctx)
     n_fields = 0
     noted: set = set()
     for K in p.subclasses(ent):
@@ -254,17 +460,30 @@ def rule_alias(ctx) -> RuleResult:
                     direct, indirect = _mutations(ctx, fn)
                     mutators += direct.get(f, [])
                     deep += indirect.get(f, []) + indirect.get(prop, [])
-            shared = returns_self and by_ref and bool(mutators) and prop not in copied
-            if returns_self and by_ref and deep and not mutators and prop not in copied and s.cls.name + "." + prop not in noted:
+            is_dict = _dict_typed(ctx, K, f, g, s, arg) if returns_self and by_ref else None
+            detached = prop in copied or "*" in copied_types or (is_dict is not None and bool(copied_types & MAPPING_TYPES))
+            if returns_self and by_ref and not detached and (mutators or is_dict) and _reset_by_constructor(ctx, K, f) is not None:
+                detached = True
+            shared = returns_self and by_ref and bool(mutators) and not detached
+            # a dict handed out by the getter can be edited by the CALLER (copy.options["a"] = ..): shared state even when no
+            # method of the class edits it
+            shared_dict = returns_self and by_ref and is_dict is not None and not detached and not shared
+            if returns_self and by_ref and deep and not mutators and not detached and is_dict is None and s.cls.name + "." + prop not in noted:
                 noted.add(s.cls.name + "." + prop)
-            res.inst(f"{K.name}.{prop}: returns-stored={returns_self} stores-by-ref={by_ref} in-place-mutators={len(mutators)}",
-                     nontrivial=returns_self and by_ref, ok=not shared)
+            res.inst(f"{K.name}.{prop}: returns-stored={returns_self} stores-by-ref={by_ref} in-place-mutators={len(mutators)}"
+                     + (f" dict ({is_dict})" if is_dict else ""), nontrivial=returns_self and by_ref, ok=not (shared or shared_dict))
             if shared:
                 res.find(s.cls.name, prop, f"{f} shared by reference between source and copy and mutated in place", s.where,
                          f"copy_to_parent hands the source's {f} object to the copy's constructor; the setter keeps the reference and "
                          f"{mutators[0]} edits it in place: an edit of the copy's {prop} shows in the source",
                          resolved_on=K.name, mutators=mutators[:3])
-    res.notes.append(f"omit list of copy_to_parent: {sorted(omit0)}; copied on harvest: {sorted(copied)}")
+            if shared_dict:
+                res.find(s.cls.name, prop, f"{f} (a dict) is shared by reference between source and copy", s.where,
+                         f"copy_to_parent hands the source's {f} dict ({is_dict}) to the copy's constructor without copying it; the setter keeps "
+                         f"the reference and the getter hands the stored dict itself out: copy.{prop}[key] = ... (or any nested edit) shows in the source",
+                         resolved_on=K.name)
+    res.notes.append(f"omit list of copy_to_parent: {sorted(omit0)}; copied on harvest: {sorted(copied)}"
+                     + (f"; every harvested entry of type {sorted(copied_types)} copied" if copied_types else ""))
     if noted:
         res.notes.append("not decided here (harvested, returned and stored by reference, edited only in nested entries or through the property): " + ", ".join(sorted(noted)))
     if n_fields < 300:
@@ -661,4 +880,10 @@ def rule_pgroup(ctx) -> RuleResult:
     return impl(ctx, _flow)
 
 
-RULES = [rule_alias, rule_fresh, rule_shape, rule_source, rule_pgroup]
+def rule_nested(ctx) -> RuleResult:
+    from ._c12_source import rule_nested as impl
+
+    return impl(ctx, _flow)
+
+
+RULES = [rule_alias, rule_fresh, rule_shape, rule_source, rule_pgroup, rule_nested]
